@@ -18,5 +18,14 @@ def extractor(facts, rep):
 
 
 def palette_tables(facts, rep):
+    """Only the index <-> 4-bit colour tables (from_ansi / into_ansi), which cap_wincon_color narrows through; bright() and the
+    rest of C13's colour rules are not part of C18's chain."""
+    import core
     from rules import C13
-    rep.guarded("colour-tables", "anstyle::color", lambda: C13.rule_colour_tables(facts, rep))
+    sub = core.Filtered(rep, lambda rule, anchor, instance: any(x in str(anchor) + str(instance) for x in ("into_ansi", "from_ansi", "variants-in-palette-order")))
+    try:
+        C13.rule_colour_tables(facts, sub)
+    except (core.Unrecognised, core.AnchorMissing) as e:
+        # a construct elsewhere in C13's colour rules (bright()) is not this property's business unless the tables were not reached
+        if not any(o["rule"] == "colour-tables" and "into_ansi" in o["key"] for o in rep.obligations if hasattr(rep, "obligations")):
+            rep.bad("colour-tables", "anstyle::color", "unrecognised-idiom", f"unrecognised-idiom: {e}")
